@@ -634,8 +634,17 @@ func Call(name string, a []*Node) Outcome {
 		if a[1].K != Vec {
 			return unspec("path is not a vector")
 		}
+		for _, k := range a[1].L {
+			if !isKey(k) && k.K != Int {
+				return unspec("path element that is neither a string/keyword nor an index")
+			}
+		}
 		cur := a[0]
 		for _, k := range a[1].L {
+			if cur.K == Nil && k.K == Int {
+				// an index into a missing intermediate: "index out of range" is unspecified for get
+				return unspec("index into a missing intermediate value")
+			}
 			o := get(cur, k)
 			if o.K != Value {
 				return unspec("walking through " + o.Why)
@@ -668,6 +677,22 @@ func Call(name string, a []*Node) Outcome {
 		}
 		if a[1].K != Vec {
 			return unspec("path is not a vector")
+		}
+		// the step files document update-in for nested maps and for nested vectors, mixed nesting only for
+		// get-in and assoc-in: a path that crosses from one collection kind into the other is unspecified
+		cur := a[0]
+		for i, k := range a[1].L {
+			if i == len(a[1].L)-1 {
+				break
+			}
+			o := get(cur, k)
+			if o.K != Value {
+				break
+			}
+			if (o.V.K == Map || o.V.K == Vec) && o.V.K != cur.K {
+				return unspec("update-in through mixed map/vector nesting")
+			}
+			cur = o.V
 		}
 		return updIn(a[0], a[1].L, func(old *Node) Outcome { return applyFn(a[2], []*Node{old}) })
 	case "nil?", "true?", "false?", "symbol?", "keyword?", "string?", "number?", "list?", "vector?", "map?", "set?", "sequential?":
